@@ -130,6 +130,26 @@ Definition view_eqb (a b : view) : bool :=
   && Bool.eqb (v_can_redo a) (v_can_redo b)
   && Nat.eqb (v_depth a) (v_depth b).
 
+(* names of the view fields on which two steps differ (for the replay file / failing-input search) *)
+Definition diff_fields (a b : obs * view) : list string :=
+  let '(oa, va) := a in let '(ob, vb) := b in
+  (if obs_eqb oa ob then [] else ["obs"%string]) ++
+  (if String.eqb (v_cur va) (v_cur vb) then [] else ["cur"%string]) ++
+  (if map_eqb value_eqb (v_vars va) (v_vars vb) then [] else ["vars"%string]) ++
+  (if set_eqb (v_used va) (v_used vb) then [] else ["used"%string]) ++
+  (if map_eqb (list_eqb String.eqb) (hooks_norm (v_hooks va)) (hooks_norm (v_hooks vb)) then [] else ["hooks"%string]) ++
+  (if map_eqb Nat.eqb (v_join va) (v_join vb) then [] else ["join"%string]) ++
+  (if String.eqb (v_content va) (v_content vb) then [] else ["content"%string]) ++
+  (if list_eqb (fun x y => let '(t, g, r) := x in let '(t', g', r') := y in
+                           String.eqb t t' && String.eqb g g' && String.eqb r r') (v_choices va) (v_choices vb)
+   then [] else ["choices"%string]) ++
+  (if String.eqb (v_pid va) (v_pid vb) then [] else ["pid"%string]) ++
+  (if list_eqb rdir_eqb (v_render va) (v_render vb) then [] else ["render"%string]) ++
+  (if list_eqb (list_eqb pair_eqb) (v_input va) (v_input vb) then [] else ["input"%string]) ++
+  (if Bool.eqb (v_can_undo va) (v_can_undo vb) then [] else ["can_undo"%string]) ++
+  (if Bool.eqb (v_can_redo va) (v_can_redo vb) then [] else ["can_redo"%string]) ++
+  (if Nat.eqb (v_depth va) (v_depth vb) then [] else ["depth"%string]).
+
 Definition step_eqb (a b : obs * view) : bool := obs_eqb (fst a) (fst b) && view_eqb (snd a) (snd b).
 
 (* an engine case: story, code tables, initial variables, operations, what the implementation did *)
@@ -153,6 +173,12 @@ Definition ecase_show (c : ecase) :=
   let '(_, _, _, _, exp) := c in
   let m := ecase_model c in
   match first_diff m exp 0 with
-  | Some i => (Some i, nth_error m i)
-  | None => (None, None)
+  | Some i =>
+      (Some i,
+       match nth_error m i, nth_error exp i with
+       | Some a, Some b => diff_fields a b
+       | _, _ => ["length"%string]
+       end,
+       nth_error m i)
+  | None => (None, [], None)
   end.
